@@ -62,36 +62,82 @@ def gen_block_script(rng):
 
 
 def gen(rng, tier):
+    """one kernel thread: deterministic, exact run-order validation against model `Sched`"""
     cases = []
     for _ in range(n_cases(tier, 100, 1000)):
         cases.append({"args": [1, gen_block_script(rng)],
                       "env": {"VR_SCHED": "rr", "VR_SEED": rng.randrange(1, 1 << 30), "VR_BUDGET": 300000}})
-    for _ in range(n_cases(tier, 40, 400)):
-        cases.append({"args": [rng.choice([2, 3]), gen_block_script(rng)], "env": sched_env(rng, budget=400000)})
     for _ in range(n_cases(tier, 150, 1500)):
-        # one kernel thread: deterministic, exact run-order validation against the model
         cases.append({"args": [1, gen_script(rng, 6, 7 if tier == "quick" else 12)],
                       "env": {"VR_SCHED": "rr", "VR_SEED": rng.randrange(1, 1 << 30), "VR_BUDGET": 300000}})
     for nf in ([300] if tier == "quick" else [257, 300, 520]):
         # more ready fibers than the initial deque capacity (256): size-triggered paths
         script = "|".join(["y,y"] * nf)
         cases.append({"args": [1, script], "env": {"VR_SCHED": "rr", "VR_SEED": 1, "VR_BUDGET": 3000000, "VR_MAXEV": 4000000}, "timeout": 300})
+    return cases
+
+
+def gen_barrier_script(rng):
+    """barrier-heavy: several pairs keep parking in state SAVING_STATE_TO_WAIT and waking each
+    other across kernel threads, so fibers reach a run queue while their context is still being
+    saved (skipped by fiber_scheduler_next) and load_balance is called with them in store_to"""
+    fibers = []
+    for k in range(rng.randrange(1, 4)):
+        n = rng.randrange(3, 9)
+        for _side in range(2):
+            ops = []
+            for _ in range(n):
+                ops.append("b%d" % k)
+                if rng.random() < 0.3:
+                    ops.append("y")
+            fibers.append(ops)
+    for _ in range(rng.randrange(0, 3)):
+        fibers.append(["y"] * rng.randrange(2, 7))
+    rng.shuffle(fibers)
+    return "|".join(",".join(f) for f in fibers)
+
+
+def gen_n(rng, tier):
+    """several kernel threads (2-4): work stealing in play; every run-queue event, context
+    switch and scheduler access to a fiber state word is replayed through model `SchedN`;
+    starvation also shows as STARVED / BUDGET"""
+    cases = []
+    for _ in range(n_cases(tier, 40, 400)):
+        cases.append({"args": [rng.choice([2, 3, 4]), gen_block_script(rng)], "env": sched_env(rng, budget=400000)})
+    # a thief whose own store_to is NOT empty (it holds skipped fibers) is rare (about 2 % of
+    # these runs) and is the only situation in which it matters which of its deques the loot
+    # goes to: many cheap cases, some with the parking fiber stalled inside its SAVING window
+    for i in range(n_cases(tier, 300, 2000)):
+        env = sched_env(rng, budget=400000)
+        if i % 5 == 4:
+            env = {"VR_SEED": rng.randrange(1, 1 << 30), "VR_SCHED": "rand", "VR_SWITCH": rng.choice([2, 3]),
+                   "VR_BUDGET": 600000, "VR_STALL_FUNC": "fiber_manager_wait_in_mpsc_queue",
+                   "VR_STALL_LEN": rng.choice([60, 200, 600]), "VR_STALL_DEN": rng.choice([1, 2, 3])}
+        cases.append({"args": [rng.choice([2, 3, 4]), gen_barrier_script(rng)], "env": env})
     for _ in range(n_cases(tier, 100, 1000)):
-        # several kernel threads: stealing in play; starvation shows as STARVED / BUDGET
-        cases.append({"args": [rng.choice([2, 3]), gen_script(rng, 6, 6)],
+        cases.append({"args": [rng.choice([2, 3, 4]), gen_script(rng, 6, 6)],
                       "env": sched_env(rng, budget=400000)})
+    for i in range(n_cases(tier, 8, 40)):
+        # many more stealable fibers than max_steal (50): a load_balance call that starts when the
+        # victim holds > 100 fibers stops at its limit, not at `remote_count > local_count`
+        script = "|".join(["y,y"] * rng.choice([200, 300, 400]))
+        cases.append({"args": [2 if i % 4 else 3, script], "env": sched_env(rng, budget=3000000), "timeout": 300})
     return cases
 
 
 SPEC = {
     "C10": {
         "parts": [{"name": "yield", "harness": "yield", "model": "Sched", "runtime": True, "gen": gen,
+                   "nontrivial": lambda s: s["hist"].get("switch #", 0) >= 6},
+                  {"name": "yieldN", "harness": "yield", "model": "SchedN", "runtime": True, "gen": gen_n,
                    "nontrivial": lambda s: s["hist"].get("switch #", 0) >= 6}],
-        "rule": "cases = (script of 2-6 fibers mixing yield and yield-polling waits, or pairs of fibers that block and wake each other through 2-party barriers / semaphores next to yielders, 1-3 kernel threads, scheduler seed) from VERIF_SEED; distinct = different (script, sha1 of the access/switch sequence); non-trivial = at least 6 context switches",
+        "rule": "cases = (script of 2-6 fibers mixing yield and yield-polling waits, or pairs of fibers that block and wake each other through 2-party barriers / semaphores next to yielders, or 70-130 yielders, 1-4 kernel threads, scheduler seed) from VERIF_SEED; distinct = different (script, sha1 of the access/switch sequence); non-trivial = at least 6 context switches",
         "trusted_base": [
-            "run queues as lists (deque internals are C02's model Wsd); SAVING-skip does not occur in yield-only programs",
+            "run queues as lists (deque internals are C02's model Wsd)",
             "on one kernel thread the harness announces who parks and who is woken (`block` / `sched <fiber>` notes from its own ghost count of barrier arrivals and semaphore units); a wrong announcement makes the run-order prediction diverge, it cannot hide a starvation",
-            "exact run-order validation on 1 kernel thread; with N>1 threads only the starvation oracle (wait loops must terminate) is applied"],
+            "exact run-order validation on 1 kernel thread (model Sched); with 2-4 kernel threads every rqpush / rqpop / rqsteal / switch line and every scheduler access to a fiber state word in fiber_manager_yield / fiber_scheduler_next / fiber_manager_do_maintenance is replayed through SchedN.step (steal = top of the victim's deque, loot onto the thief's schedule_from, at most 50 per load_balance call, load_balance only with an empty schedule_from), plus the bounded-bypass monitor of Props/C10 bypass_bound_from_store_to and the starvation oracle (wait loops must terminate)",
+            "N threads: which physical deque (queue_one / queue_two) plays schedule_from is followed through the swaps of fiber_scheduler_next; while BOTH deques of a thread are empty the swaps leave no trace in the log and the next push defines the roles (so 'loot pushed onto store_to' is only seen when the thief's store_to is non-empty or on the second steal of a call)",
+            "N threads: wake-ups performed by a thread in its maintenance loop (event poller, deferred unlock) are not in the model; the yield harness has none"],
         "assumptions": ["scripts are deadlock-free by construction (a fiber only waits for a later-indexed fiber that does set its flag)"],
     },
 }
